@@ -138,6 +138,9 @@ structure PEntry where
   o : List (Nat × Bytes) := []
   /-- registered converters: converter ↦ canonical rendering of its result (absent: it returns an error) -/
   c : List (Nat × Bytes) := []
+  /-- the string as one JSON value for a nested struct (setNestedStructWithDepth's shortcut): the struct
+      `json.Unmarshal` makes of it on the nested field as it is before the bind (absent: it fails) -/
+  nj : Option Val := none
   deriving Repr, Inhabited
 
 abbrev Params := Bytes → PEntry
